@@ -69,7 +69,7 @@ def case(rep, drv, rnd, i, tier):
             try:
                 lib.append(('ok', lib_compile_file(p)))
             except Exception as e:
-                lib.append(('raise', type(e).__name__, str(e)))
+                lib.append(('raise', type(e).__name__, str(e), getattr(e, 'line', None), getattr(e, 'column', None)))
         args_src = list(paths)
         stdin = None
         if use_stdin:
@@ -79,7 +79,7 @@ def case(rep, drv, rnd, i, tier):
             try:
                 lib[k] = ('ok', C.compile_prolog_from_string(texts[k], comp.real_compile.__globals__['C'].CompilerContext))
             except Exception as e:
-                lib[k] = ('raise', type(e).__name__, str(e))
+                lib[k] = ('raise', type(e).__name__, str(e), getattr(e, 'line', None), getattr(e, 'column', None))
         expect_fail = any(l[0] != 'ok' for l in lib)
         to_file = rnd.random() < 0.4
         outpath = os.path.join(td, 'out.py')
@@ -99,8 +99,9 @@ def case(rep, drv, rnd, i, tier):
             bad = [l for l in lib if l[0] != 'ok'][0]
             if bad[1] == 'CompilerError':
                 # file:line:col of the library's error must be in the CLI's message
-                m = re.search(r':(\d+):(\d+):', bad[2])
-                if m and (':%s:%s:' % (m.group(1), m.group(2))).encode() not in err:
+                # (the position is taken from the exception object, not from its text: a message that
+                # leaves the column out when it is 0 does not report the position)
+                if bad[3] is not None and (':%s:%s:' % (bad[3], bad[4])).encode() not in err:
                     rep.violation(dict(payload, kind='syntax error reported without its position', stderr=err.decode('utf8', 'replace')[-400:], library=bad[2]))
                     return
             return
